@@ -106,13 +106,13 @@ fn judge_red<X: PartialEq + std::fmt::Debug>(
             ty,
             op,
             "",
-            format!("returned {:?} but every evaluation order overflows in this profile (overflow-checks={}); {}", g, ovf(), ctx()),
+            format!("returned {:?} but the primitive expression (for dot-like reductions: every evaluation order) overflows in this profile (overflow-checks={}); {}", g, ovf(), ctx()),
         )),
         (Err(gm), Verdict::Must(e)) => Err(fail(
             ty,
             op,
             "",
-            format!("panicked ({}) but no evaluation order overflows, expected {:?}; overflow-checks={}; {}", gm, e, ovf(), ctx()),
+            format!("panicked ({}) but the primitive expression (for dot-like reductions: no evaluation order) overflows, expected {:?}; overflow-checks={}; {}", gm, e, ovf(), ctx()),
         )),
     }
 }
@@ -229,6 +229,26 @@ fn verdict<X>(leaves: &[Option<i128>], mul: bool, lo: i128, hi: i128, val: X) ->
     } else {
         Verdict::Ambig(val)
     }
+}
+
+/// element_sum / element_product are documented as `self.x + self.y + ..` / `self.x * self.y * ..`: the primitive
+/// expression is the left fold, so in an overflow-checking profile the panic is decided by its intermediates
+fn verdict_left<X>(leaves: &[Option<i128>], mul: bool, lo: i128, hi: i128, val: X) -> Verdict<X> {
+    if !ovf() {
+        return Verdict::Must(val);
+    }
+    let mut acc = match leaves[0] {
+        Some(x) => x,
+        None => return Verdict::Panic,
+    };
+    for l in &leaves[1..] {
+        let Some(x) = l else { return Verdict::Panic };
+        acc = match if mul { acc.checked_mul(*x) } else { acc.checked_add(*x) } {
+            Some(v) if v >= lo && v <= hi => v,
+            _ => return Verdict::Panic,
+        };
+    }
+    Verdict::Must(val)
 }
 
 /// sign-extend / zero-extend a raw lane word
@@ -756,8 +776,14 @@ macro_rules! int_type {
                     }
                     let la: [Option<i128>; N] = std::array::from_fn(|i| Some(a[i] as i128));
                     if unary {
-                    red!("element_sum", va.element_sum(), la, false, a.iter().fold(0 as T, |x, y| x.wrapping_add(*y)));
-                    red!("element_product", va.element_product(), la, true, a.iter().fold(1 as T, |x, y| x.wrapping_mul(*y)));
+                    {
+                        let amb = matches!(verdict(&la, false, LO, HI, 0u8), Verdict::Ambig(_)) || matches!(verdict(&la, true, LO, HI, 0u8), Verdict::Ambig(_));
+                        if let (true, Some(t)) = (amb, t.as_deref_mut()) { t.class("outcome:left-fold-decides-the-panic"); }
+                        let vs = verdict_left(&la, false, LO, HI, a.iter().fold(0 as T, |x, y| x.wrapping_add(*y)));
+                        judge_red(TY, "element_sum", cat::<FAST, _>(|| va.element_sum()), &vs, &ctx)?;
+                        let vp = verdict_left(&la, true, LO, HI, a.iter().fold(1 as T, |x, y| x.wrapping_mul(*y)));
+                        judge_red(TY, "element_product", cat::<FAST, _>(|| va.element_product()), &vp, &ctx)?;
+                    }
                     }
                     let prod = |x: T, y: T| -> Option<i128> { x.checked_mul(y).map(|p| p as i128) };
                     let ld: [Option<i128>; N] = std::array::from_fn(|i| prod(a[i], b[i]));
